@@ -25,6 +25,7 @@ const MAX_VIOL_PER_SIG: usize = 4;
 
 thread_local! {
     static LAST_PANIC: RefCell<Option<(String, String)>> = const { RefCell::new(None) };
+    static IN_CATCH: std::cell::Cell<bool> = const { std::cell::Cell::new(false) };
 }
 
 pub fn install_panic_hook() {
@@ -40,6 +41,10 @@ pub fn install_panic_hook() {
         } else {
             "<non-string panic payload>".into()
         };
+        if !IN_CATCH.with(|c| c.get()) {
+            // a panic outside a run (generator, runner): always a harness error, never swallowed
+            eprintln!("HARNESS ERROR: panic outside a run at {}: {}", loc, msg);
+        }
         LAST_PANIC.with(|p| *p.borrow_mut() = Some((loc, msg)));
     }));
 }
@@ -59,7 +64,10 @@ fn short_loc(loc: &str) -> String {
 /// the message says so)
 pub fn catch<T>(f: impl FnOnce() -> T) -> Result<T, Violation> {
     LAST_PANIC.with(|p| *p.borrow_mut() = None);
-    match std::panic::catch_unwind(std::panic::AssertUnwindSafe(f)) {
+    let prev = IN_CATCH.with(|c| c.replace(true));
+    let r = std::panic::catch_unwind(std::panic::AssertUnwindSafe(f));
+    IN_CATCH.with(|c| c.set(prev));
+    match r {
         Ok(v) => Ok(v),
         Err(_) => {
             let (loc, msg) = LAST_PANIC
@@ -474,6 +482,14 @@ pub fn check(prop: &dyn Prop, o: &CheckOpts) -> CheckReport {
         for e in std::fs::read_dir(&outdir).into_iter().flatten().flatten() {
             if e.file_name().to_string_lossy().starts_with("harness-error") {
                 eprintln!("{}", std::fs::read_to_string(e.path()).unwrap_or_default());
+            }
+        }
+        for e in std::fs::read_dir(&outdir).into_iter().flatten().flatten() {
+            if e.file_name().to_string_lossy().starts_with("log-") {
+                let t = std::fs::read_to_string(e.path()).unwrap_or_default();
+                if t.contains("HARNESS") {
+                    eprintln!("{}", truncate(&t, 1500));
+                }
             }
         }
         eprintln!("HARNESS ERROR: a worker reported a harness error (see {})", outdir.display());
